@@ -265,7 +265,7 @@ theorem sibling_responses_lost_counterexample (respond : Json → Json) :
     (∃ c₁ c₂, processT .gridSearch C06.s1Query = .ok (.arr [c₁, c₂]) ∧
       (∃ c, processT C06.s1Inject c₂ = .ok c)) ∧
     (answer [.gridSearch, C06.s1Inject] respond C06.s1Query).length = 1 := by
-  obtain ⟨h1, _, h3, h4⟩ := C06.sibling_responses_lost_counterexample respond
+  obtain ⟨h1, _, h3, h4, _⟩ := C06.sibling_responses_lost_counterexample respond
   exact ⟨⟨_, _, h1, h3⟩, by rw [h4]; rfl⟩
 
 -- non-vacuity: a batch mixing an object, a number, a degenerate grid section and an empty array, under grid
